@@ -289,4 +289,56 @@ theorem C03_scrypt_reduction (D : Digests) (hD : D.WF) (p p' s s' H : Bytes)
   exact ⟨Q.params, Q.salt, hd1, e1, e2⟩
 
 
+/-- gost-yescrypt: same parameters and salt for the inner KDF, the same keyed part of the setting for the outer construction,
+    and the two phrases collide in the composition: a false accept is a collision of
+    `phrase ↦ gostOuter phrase pre (yescrypt params salt phrase)` -/
+theorem C03_gost_reduction (D : Digests) (hD : D.WF) (p p' s s' H : Bytes)
+    (h1 : cryptGost D p s = .ok H) (h2 : cryptGost D p' s' = .ok H) :
+    ∃ params salt pre y y', D.yescrypt params salt p = some y ∧ D.yescrypt params salt p' = some y' ∧
+      D.gostOuter p pre y = D.gostOuter p' pre y' := by
+  have f1 := C01.C01_gost_fix D hD p s H h1
+  have f2 := C01.C01_gost_fix D hD p' s' H h2
+  have g1 := f1
+  have g2 := f2
+  unfold cryptGost at g1 g2
+  split at g1; · cases g1
+  rename_i hlen
+  split at g1; · cases g1
+  rename_i hpre
+  rw [if_neg hlen, if_neg hpre] at g2
+  simp only [Bool.not_eq_true, Bool.not_eq_false] at hpre
+  dsimp only at g1 g2
+  split at g1; · cases g1
+  rename_i y1 hy1
+  split at g2; · cases g2
+  rename_i y2 hy2
+  clear g1 g2
+  have hc : cat ([36, 121, 36] ++ H.drop 4) 1 ≠ 55 := by simp [cat]
+  obtain ⟨Q1, hd1, hQ1, hD1, _, _, hk1, hout1, hshape1, _⟩ := yescryptR_Y_struct hy1 hc
+  obtain ⟨Q2, hd2, hQ2, hD2, _, _, hk2, hout2, hshape2, _⟩ := yescryptR_Y_struct hy2 hc
+  rw [hQ1] at hQ2
+  simp only [Option.some.injEq] at hQ2
+  subst hQ2
+  have e1 := gost_eval D p H y1 _ _ hd1 hlen hpre hy1 hshape1
+  have e2 := gost_eval D p' H y2 _ _ hd2 hlen hpre hy2 hshape2
+  rw [f1] at e1; rw [f2] at e2
+  split at e1
+  case isFalse => cases e1
+  split at e2
+  case isFalse => cases e2
+  simp only [Except.ok.injEq] at e1 e2
+  have ht : y1.take (Q1.prefixlen + Q1.saltstrlen + 1) = y2.take (Q1.prefixlen + Q1.saltstrlen + 1) := by
+    rw [hout1, hout2]
+    generalize hg : ([36, 121, 36] ++ H.drop 4).take (Q1.prefixlen + Q1.saltstrlen) = pre
+    have hl : pre.length = Q1.prefixlen + Q1.saltstrlen := by
+      rw [← hg, List.length_take]; omega
+    rw [List.take_append, List.take_append, hl]
+    have : Q1.prefixlen + Q1.saltstrlen + 1 - (Q1.prefixlen + Q1.saltstrlen) = 1 := by omega
+    rw [this]; rfl
+  rw [ht] at e1
+  have ee := e1.symm.trans e2
+  simp only [List.append_cancel_left_eq] at ee
+  have := encode64_inj _ _ (by rw [hD.gost, hD.gost]) ee
+  exact ⟨Q1.params, Q1.salt, _, hd1, hd2, hD1, hD2, this⟩
+
 end Xc.C03
